@@ -36,6 +36,7 @@ CATALOGUE = {
     "justification_prefers_timeout": [("c", 0, 2)],
     # 4th element: the invariants to violate (default: all of STD_INVS, shortest counterexample of any of them)
     "tqc_stale_votes": [("b", 0, 2, "Agreement")],
+    "high_vote_keeps_older_same_number": [("b", 0, 3, "CertUnique")],
 }
 
 
@@ -106,7 +107,7 @@ def regen():
         got = None
         for t in tries:
             (variant, maxcrash, maxview) = t[:3]
-            got = generate(weaken, variant, maxcrash, maxview, cap=400 if len(t) > 3 else 180, invs=t[3] if len(t) > 3 else None)
+            got = generate(weaken, variant, maxcrash, maxview, cap=600 if len(t) > 3 else 180, invs=t[3] if len(t) > 3 else None)
             if got:
                 break
         path = os.path.join(SCEN_DIR, f"attack_{weaken}.json")
